@@ -36,8 +36,67 @@ CODES = {"wo": 0x06010001, "ro": 0x06010002, "noidx": 0x06020000, "nosub": 0x060
          "len": 0x06070010, "noval": 0x060A0023, "toggle": 0x05030000, "cmd": 0x05040001}
 
 
+class _AbortNet:
+    """answers every request with one abort frame carrying the given code"""
+
+    def __init__(self, client, code):
+        self.client, self.code = client, code
+
+    def send_message(self, can_id, data, remote=False):
+        d = bytes(data)
+        if d[0] & 0xE0 != 0x80:
+            self.client.on_response(0x582, bytes([0x80]) + d[1:4] + self.code.to_bytes(4, "little"), 0.0)
+
+
+def run_cab(code, mode):
+    """the client API under an abort frame with `code`: upload / expedited download / segmented download"""
+    from canopen.sdo.client import SdoClient
+    from canopen.sdo.exceptions import SdoCommunicationError
+    client = SdoClient(0x602, 0x582, canopen.ObjectDictionary())
+    client.network = _AbortNet(client, code)
+    try:
+        if mode == "u":
+            client.upload(0x2000, 0)
+        elif mode == "e":
+            client.download(0x2000, 0, b"\x01\x02")
+        else:
+            client.download(0x2000, 0, bytes(10))
+        return "ok"
+    except SdoAbortedError as e:
+        return f"err aborted {e.code}"
+    except SdoCommunicationError:
+        return "err comm"
+    except Exception:
+        return "err other"
+
+
+def run_cbref(a):
+    """`cbref <od> <idx> <sub> <hex> <expedited> <code>`: the application's write callback refuses the download
+    by raising SdoAbortedError(code) → `result | store | readback`"""
+    entries = parse_od(a[1])
+    idx, sub, data, code = int(a[2]), int(a[3]), c04.unhx(a[4]), int(a[6])
+    rig = c02.Rig(entries, {})
+
+    def refuse(index, subindex, od, data, **kw):
+        if (index, subindex) == (idx, sub):
+            raise SdoAbortedError(code)
+    rig.node.add_write_callback(refuse)
+    x = c02.ref_download(rig, idx, sub, data, a[5] == "1", [7, 7, 7])
+    st = rig.store_view()
+    y = c02.ref_upload(rig, idx, sub)
+    return f"{x} | store: {st} | readback: {y}"
+
+
+def model_skips(op):
+    return op.startswith("cbref ")
+
+
 def run_impl(op):
     a = op.split(" ")
+    if a[0] == "cab":
+        return run_cab(int(a[1]), a[2])
+    if a[0] == "cbref":
+        return run_cbref(a)
     if a[0] == "srvx":
         return _run_impl2(" ".join(["srv"] + a[1:4]))
     return _run_impl2(op)
@@ -45,6 +104,26 @@ def run_impl(op):
 
 def oracle(op, out):
     a = op.split(" ")
+    if a[0] == "cab":
+        exp = f"err aborted {int(a[1])}"
+        return None if out == exp else f"abort frame with code {int(a[1]):#010x}: the client API gave {out}, expected {exp}"
+    if a[0] == "cbref":
+        entries = parse_od(a[1])
+        idx, sub, code = int(a[2]), int(a[3]), int(a[6])
+        parts = out.split(" | ")
+        vd, _ = find_entry(entries, idx, sub)
+        if vd is None or not c02.writable(vd[1]) or c02.cia_encode(vd[0], ("x", c04.unhx(a[4]))) is None:
+            return None
+        if vd[0] in NUMBER_W and NUMBER_W[vd[0]] // 8 != len(c04.unhx(a[4])):
+            return None                      # refused by the server itself before the callback is asked
+        if parts[0] != f"abort {code}":
+            return f"cbref: a download refused by the write callback was answered {parts[0]}, not abort {code}"
+        if parts[1] != "store: -":
+            return f"cbref: the refused data was stored anyway ({parts[1]})"
+        exp = c02.expected_upload(entries, {}, idx, sub)
+        if exp is not None and c02.readable(vd[1]) and parts[2] != "readback: " + exp:
+            return f"cbref: after the refused write the entry reads {parts[2]}, its value is {exp}"
+        return None
     if a[0] == "srvx":
         w = c02.check_frames(frames_of(a[3]), out.split(" | ")[0])
         if w:
@@ -59,6 +138,8 @@ def oracle(op, out):
 
 
 def signature(op, what):
+    if op.startswith(("cab ", "cbref ")):
+        return op.split(" ")[0] + ":" + what.split(" ")[0]
     return c02.signature(op, what)
 
 
@@ -66,8 +147,16 @@ def nontrivial(op, out):
     return "abort" in out or ",80" in out or out.startswith("80")
 
 
-classify = c02.classify
-shrink_candidates = c02.shrink_candidates
+def classify(op, out):
+    if op.startswith(("cab ", "cbref ")):
+        return op.split(" ")[0]
+    return c02.classify(op, out)
+
+
+def shrink_candidates(op):
+    if op.startswith(("cab ", "cbref ")):
+        return []
+    return c02.shrink_candidates(op)
 
 
 def abort_hex(idx, sub, code):
@@ -109,6 +198,23 @@ def gen_ops(tier, rng):
             yield f"up {ods} - - {idx} {sub}"
             data = bytes(rng.getrandbits(8) for _ in range(rng.randint(0, 9)))
             yield f"down {ods} - - {idx} {sub} {c04.hx(data)} {rng.randint(0, 1)} {c04.nl([rng.randint(1, 7) for _ in range(4)])}"
+    # client side: abort frames with every kind of code, at each kind of transfer
+    codes = sorted(set(CODES.values()) | {0, 1, 0x7FFFFFFF, 0x80000000, 0x80000001, 0xFFFFFFFF, 0x08000000, 0x05040000}
+                   | {rng.getrandbits(32) for _ in range(40 if tier == "quick" else 2000)}
+                   | {1 << k for k in range(32)})
+    for code in codes:
+        for mode in "ues":
+            yield f"cab {code} {mode}"
+    # a write callback of the application refuses the download: abort with its code, nothing stored
+    for t in (0x05, 0x06, 0x07, 0x0A, 0x0F):
+        w = NUMBER_W.get(t, 0) // 8
+        for n in ([w] if w else [0, 1, 4, 5, 9, 20]):
+            data = bytes(rng.getrandbits(8) for _ in range(n))
+            vd = (t, 0, None, c02.rand_value(t, rng, 8))
+            ods = od_token([("v", 0x2100, vd), ("r", 0x2200, [(3, vd)])])
+            for (idx, sub) in ((0x2100, 0), (0x2200, 3)):
+                for exp in (0, 1):
+                    yield f"cbref {ods} {idx} {sub} {c04.hx(data)} {exp} {rng.choice([0x06090031, 0x08000020, 0x06090030])}"
     # wrong toggle at every step, lengths on both sides of 7 / 14 / 21
     for n in (5, 7, 8, 14, 15, 21, 22, 30):
         val = bytes(rng.getrandbits(8) for _ in range(n))
